@@ -14,6 +14,7 @@ import (
 	"sort"
 	"strings"
 	"sync"
+	"syscall"
 	"time"
 
 	"github.com/vishvananda/netlink"
@@ -155,17 +156,68 @@ func c09Case(c *ctxT, hid int, seed int64) {
 	if rng.Intn(4) == 0 {
 		listFailPass = 1 + rng.Intn(2)
 	}
+	starvedPass := 0
+	if rng.Intn(4) == 0 {
+		starvedPass = 1 + rng.Intn(2)
+	}
 	pass := 0
 	var hmu sync.Mutex
+	// a pod that is re-created right after GC has looked it up (and found it gone): the trigger fires on the
+	// GET the collector issues for that pod; later lookups of the pass are slowed so that the ADD can finish
+	// while the pass is still running
+	readdTrigger := map[string]func(){}
+	readdNames := map[string]bool{}
+	firstLookup := map[string]bool{}
+	slowGets := false
 	d.hooks.Set(func(h *apisim.Hooks) {
 		h.BeforeGet = func(ctx context.Context, key client.ObjectKey, obj client.Object) error {
 			if _, ok := obj.(*corev1.Pod); ok && failing[key.Name] {
 				return apierrors.NewServiceUnavailable("injected: apiserver unavailable")
 			}
 			if _, ok := obj.(*corev1.Pod); ok {
-				time.Sleep(300 * time.Microsecond)
+				hmu.Lock()
+				var fire []func()
+				for k, f := range readdTrigger {
+					// half of them at the collector's first lookup of the pass (the re-created pod's ADD completes
+					// while the collector is still busy with other pods), the others at the lookup of their own name
+					if firstLookup[k] {
+						fire = append(fire, f)
+						delete(readdTrigger, k)
+					}
+				}
+				slow := slowGets && !readdNames[key.Name] // (the re-created pods' own requests are not slowed)
+				hmu.Unlock()
+				for _, f := range fire {
+					go f()
+				}
+				if slow {
+					time.Sleep(2 * time.Millisecond)
+				} else {
+					time.Sleep(300 * time.Microsecond)
+				}
 			}
 			return nil
+		}
+		h.AfterGet = func(ctx context.Context, key client.ObjectKey, obj client.Object, err error) {
+			// the collector has just been told that this pod is gone: it is re-created now
+			if _, ok := obj.(*corev1.Pod); !ok || err == nil {
+				return
+			}
+			hmu.Lock()
+			f := readdTrigger[key.Name]
+			delete(readdTrigger, key.Name)
+			hmu.Unlock()
+			if f != nil {
+				// the lookup's answer is held back until the re-created pod's ADD has completed, or for 25 ms when
+				// it cannot (it waits for the collector): the schedule "ADD between lookup and collection" is
+				// forced instead of hoped for
+				done := make(chan struct{})
+				go func() { f(); close(done) }()
+				select {
+				case <-done:
+				case <-time.After(25 * time.Millisecond):
+				}
+			}
 		}
 		h.BeforeList = func(ctx context.Context, list client.ObjectList) error {
 			hmu.Lock()
@@ -176,6 +228,17 @@ func c09Case(c *ctxT, hid int, seed int64) {
 			return nil
 		}
 	})
+	// the collector's record delete of a pod that is being re-created is slow (an existing suspension point:
+	// a disk write), so that the re-created pod's ADD can finish first if nothing orders the two
+	d.db.delErr = func(key string) error {
+		hmu.Lock()
+		slow := readdNames[strings.TrimPrefix(key, "ns/")]
+		hmu.Unlock()
+		if slow {
+			time.Sleep(4 * time.Millisecond)
+		}
+		return nil
+	}
 	// one record whose store delete fails persistently (a pod whose cleanup cannot proceed)
 	blocked := ""
 	if rng.Intn(4) == 0 {
@@ -187,11 +250,12 @@ func c09Case(c *ctxT, hid int, seed int64) {
 		}
 		if len(cands) > 1 {
 			blocked = cands[rng.Intn(len(cands))]
+			prevDel := d.db.delErr
 			d.db.delErr = func(key string) error {
 				if key == blocked {
 					return fmt.Errorf("injected: bolt delete failed")
 				}
-				return nil
+				return prevDel(key)
 			}
 		}
 	}
@@ -255,7 +319,7 @@ func c09Case(c *ctxT, hid int, seed int64) {
 				}
 				tw.Add(1)
 				delay := time.Duration(rng.Intn(4000)) * time.Microsecond
-				go func(p *c09Pod) {
+				body := func(p *c09Pod) {
 					defer tw.Done()
 					time.Sleep(delay)
 					d.ensurePod(p.I, true)
@@ -271,13 +335,60 @@ func c09Case(c *ctxT, hid int, seed int64) {
 					} else if !res.Processing {
 						p.Kind = "readd-failed"
 					}
-				}(p)
+				}
+				if rng.Intn(2) == 0 {
+					go body(p)
+				} else {
+					// fired by the collector's own lookup of this pod
+					delay = 0
+					pp := p
+					hmu.Lock()
+					readdTrigger[fmt.Sprintf("p%d", p.I)] = func() { body(pp) }
+					readdNames[fmt.Sprintf("p%d", p.I)] = true
+					firstLookup[fmt.Sprintf("p%d", p.I)] = rng.Intn(3) == 0
+					slowGets = true
+					hmu.Unlock()
+					r.Count("readd_triggered_by_gc_lookup_armed", 1)
+				}
+			}
+		}
+		// one pass may run while the process is out of file descriptors: every netlink call of the rule clean-up
+		// fails (a transient fault at an existing suspension point); the pods it could not clean are retried
+		var hog []*os.File
+		var oldLim syscall.Rlimit
+		starved := pn == starvedPass
+		if starved {
+			if err := syscall.Getrlimit(syscall.RLIMIT_NOFILE, &oldLim); err == nil {
+				_ = syscall.Setrlimit(syscall.RLIMIT_NOFILE, &syscall.Rlimit{Cur: 512, Max: oldLim.Max})
+				for {
+					f, err := os.Open("/dev/null")
+					if err != nil {
+						break
+					}
+					hog = append(hog, f)
+				}
+				r.Count("gc_passes_without_file_descriptors", 1)
+			} else {
+				starved = false
 			}
 		}
 		gerr := d.svc.VerifGCPods(context.Background())
+		if starved {
+			for _, f := range hog {
+				_ = f.Close()
+			}
+			_ = syscall.Setrlimit(syscall.RLIMIT_NOFILE, &oldLim)
+		}
+		hmu.Lock()
+		for k, f := range readdTrigger { // a trigger the pass never reached (pass stopped early)
+			delete(readdTrigger, k)
+			go f()
+		}
+		slowGets = false
+		hmu.Unlock()
 		tw.Wait()
 		r.Count("gc_passes", 1)
-		listFailed := pn == listFailPass && listFailPass > 0
+		listFailed := (pn == listFailPass && listFailPass > 0) || starved
 		if gerr == nil && !listFailed {
 			okPasses++
 		} else if !listFailed {
